@@ -62,7 +62,10 @@ Encodings (all blank-free)
                       (the driver's text passes are: `format_lines` = identity, `apply_newline_style` = identity)
             children  `_` or `,`-joined references, one per `mod m;` item in source order:
                       `f<id>` resolved to the record with that id, `s` not visited (`#[rustfmt::skip] mod m;`
-                      or already parsed), `n` no file, `m` both `m.rs` and `m/mod.rs`
+                      or already parsed), `n` no file, `m` both `m.rs` and `m/mod.rs`,
+                      `c<id>+<id>…/<d>` a `mod m;` with nested paths (`#[cfg_attr(pred, path = "..")]`): the
+                      candidates that exist, in attribute order, then the default look-up `<d>` = `f<id>` | `n` | `m`
+                      (what `find_external_module` does with each parse result is computed from the generated arms)
             Records are expanded into a tree from the root; a record referenced twice is visited twice; a
             reference cycle or an unknown id is a protocol error (`?`).
   roots     joined by `|`; each is `m` (missing), `x` (local configuration fails to load) or `<vcfg>@<crate>`
@@ -74,7 +77,7 @@ Encodings (all blank-free)
 -/
 namespace RF.Driver.Session
 open RF.Proto RF.Session RF.Project RF.Gen.Phases RF.Gen.Emitters
-open RF.ParseErrors (FileParse Diag Level Loc Raw genParse annotateRoot faultyE)
+open RF.ParseErrors (FileParse Diag Level Loc Raw genParse genMods annotateRoot faultyE)
 
 def bit (b : Bool) : Char := if b then '1' else '0'
 
@@ -166,6 +169,7 @@ def decParse (w : String) (ignored root : Bool) : Option FileParse :=
 
 inductive Child where
   | found (id : Nat) | skipped | notFound | multiple
+  | cfgAttr (alts : List Nat) (dk : DfltKind) (dflt : Nat)
 
 def decChild (s : String) : Option Child :=
   match s.toList with
@@ -173,6 +177,16 @@ def decChild (s : String) : Option Child :=
   | ['n'] => some .notFound
   | ['m'] => some .multiple
   | 'f' :: r => (String.ofList r).toNat?.map .found
+  | 'c' :: r =>
+    match (String.ofList r).splitOn "/" with
+    | [alts, d] => do
+      let alts ← if alts == "" then some [] else (alts.splitOn "+").mapM (·.toNat?)
+      match d.toList with
+      | ['n'] => some (.cfgAttr alts .notFound 0)
+      | ['m'] => some (.cfgAttr alts .multiple 0)
+      | 'f' :: i => (String.ofList i).toNat?.map (.cfgAttr alts .found)
+      | _ => none
+    | _ => none
   | _ => none
 
 structure Rec where
@@ -196,21 +210,36 @@ def decRec (s : String) : Option Rec :=
     | _ => none
   | _ => none
 
-def buildMods (rec : Nat → Option Tree) : List Child → Option Mods
+def buildAlts (rec : Nat → Option Tree) : List Nat → Option Alts
+  | [] => some .nil
+  | id :: r => do
+    let t ← rec id
+    let a ← buildAlts rec r
+    pure (.cons .use t a)
+
+/-- `parent`: the declaring file (what the file map holds for a path that is registered with the declaring
+item's module has the parent's text) -/
+def buildMods (rec : Nat → Option Tree) (parent : File) : List Child → Option Mods
   | [] => some .nil
   | .found id :: r => do
     let t ← rec id
-    let m ← buildMods rec r
+    let m ← buildMods rec parent r
     pure (.found t m)
-  | .skipped :: r => (buildMods rec r).map .skipped
-  | .notFound :: r => (buildMods rec r).map .notFound
-  | .multiple :: r => (buildMods rec r).map .multiple
+  | .skipped :: r => (buildMods rec parent r).map .skipped
+  | .notFound :: r => (buildMods rec parent r).map .notFound
+  | .multiple :: r => (buildMods rec parent r).map .multiple
+  | .cfgAttr alts dk d :: r => do
+    let a ← buildAlts rec alts
+    let dummy : Tree := .node { path := 0, parse := .ok, orig := [], visited := [] } .nil
+    let dt ← if dk == .found then rec d else some dummy
+    let m ← buildMods rec parent r
+    pure (.cfgAttr a dk .file dt { dt.file with visited := parent.visited } m)
 
 def buildTree (recs : List Rec) : Nat → Nat → Option Tree
   | 0, _ => none
   | fuel + 1, id => do
     let r ← recs.find? (·.file.path == id)
-    let m ← buildMods (buildTree recs fuel) r.children
+    let m ← buildMods (buildTree recs fuel) r.file r.children
     pure (.node r.file m)
 
 /-- the crate as written (every `File.parse` still `.ok`) and, per path, what the parser does on the file -/
@@ -227,7 +256,7 @@ def decCrateRaw (s : String) : Option (Tree × (Nat → FileParse)) := do
 /-- the crate as `format_project` sees it under `cfg`: statuses computed by the generated bookkeeping -/
 def decCrate (cfg : Cfg) (s : String) : Option Tree := do
   let (t, pi) ← decCrateRaw s
-  pure (annotateRoot genParse pi cfg t)
+  pure (annotateRoot genParse genMods pi cfg t)
 
 def encP : P → String
   | .file => "F" | .tmp => "T" | .bk => "B"
